@@ -1,0 +1,47 @@
+//go:build verif
+// +build verif
+
+// verif hooks for property C15 (add-only, compiled only with -tags verif): redirectHandler split at its snapshot point.
+
+package mod_redirect
+
+import (
+	"net/url"
+)
+
+import (
+	"github.com/bfenetworks/bfe/bfe_basic"
+)
+
+func (m *ModuleRedirect) VerifC15Reload(path string) error {
+	q := url.Values{}
+	q.Set("path", path)
+	_, err := m.loadConfData(q)
+	return err
+}
+
+func (m *ModuleRedirect) VerifC15Take(product string) interface{} {
+	rules, ok := m.ruleTable.Search(product)
+	if !ok {
+		return nil
+	}
+	return rules
+}
+
+func (m *ModuleRedirect) VerifC15Use(snap interface{}, req *bfe_basic.Request) string {
+	if snap == nil {
+		return "-"
+	}
+	if PrepareReqRedirect(req, snap.(*RuleList)) {
+		return req.Redirect.Url
+	}
+	return "-"
+}
+
+func (m *ModuleRedirect) VerifC15Handle(req *bfe_basic.Request) string {
+	m.redirectHandler(req)
+	if req.Redirect.Url != "" {
+		return req.Redirect.Url
+	}
+	return "-"
+}
